@@ -16,6 +16,7 @@ import io
 import os
 import pathlib
 import stat as stat_mod
+import zlib
 
 PREFIX = "/simfs/"
 
@@ -93,7 +94,8 @@ class SimFS:
         if key in self.files:
             self._answered_true.add(key)
             size = len(self.files[key])
-            return os.stat_result((stat_mod.S_IFREG | 0o644, abs(hash(key)) % (1 << 31), 99, 1, 0, 0, size, 1_600_000_000, 1_600_000_000, 1_600_000_000))
+            t = 1_600_000_000
+            return os.stat_result((stat_mod.S_IFREG | 0o644, zlib.crc32(key.encode("utf-8", "surrogateescape")) + 2, 99, 1, 0, 0, size, t, t, t, float(t), float(t), float(t), t * 10 ** 9, t * 10 ** 9, t * 10 ** 9))
         if any(f.startswith(key.rstrip("/") + "/") for f in self.files) or key.rstrip("/") == PREFIX.rstrip("/"):
             return os.stat_result((stat_mod.S_IFDIR | 0o755, 1, 99, 2, 0, 0, 4096, 1_600_000_000, 1_600_000_000, 1_600_000_000))
         raise FileNotFoundError(errno.ENOENT, "No such file or directory", key)
